@@ -414,6 +414,55 @@ py::object PyTreeSpec::ToPickleable() const {
         node.num_nodes = thread_safe_cast<ssize_t>(t[6]);
     }
     out->m_traversal.shrink_to_fit();
+    {
+        // Validate the post-order traversal: the arities and the subtree sizes must be consistent,
+        // otherwise the treespec methods would read out of bounds.
+        auto sizes = reserved_vector<std::pair<ssize_t, ssize_t>>(4);  // (num_leaves, num_nodes)
+        for (const Node& node : out->m_traversal) {
+            const bool is_leaf_kind =
+                (node.kind == PyTreeKind::Leaf || node.kind == PyTreeKind::None);
+            if (node.arity < 0 || py::ssize_t_cast(sizes.size()) < node.arity ||
+                (is_leaf_kind && node.arity != 0)) [[unlikely]] {
+                throw std::runtime_error("Malformed pickled PyTreeSpec.");
+            }
+            ssize_t num_leaves = (node.kind == PyTreeKind::Leaf ? 1 : 0);
+            ssize_t num_nodes = 1;
+            for (ssize_t i = 0; i < node.arity; ++i) {
+                num_leaves += sizes.back().first;
+                num_nodes += sizes.back().second;
+                sizes.pop_back();
+            }
+            if (node.num_leaves != num_leaves || node.num_nodes != num_nodes) [[unlikely]] {
+                throw std::runtime_error("Malformed pickled PyTreeSpec.");
+            }
+            if (node.kind == PyTreeKind::Dict || node.kind == PyTreeKind::OrderedDict ||
+                node.kind == PyTreeKind::DefaultDict) [[unlikely]] {
+                const scoped_critical_section2 cs{node.node_data, node.original_keys};
+                if (node.kind == PyTreeKind::DefaultDict) [[unlikely]] {
+                    if (!py::isinstance<py::tuple>(node.node_data) ||
+                        TupleGetSize(node.node_data) != 2 ||
+                        !py::isinstance<py::list>(TupleGetItem(node.node_data, 1))) [[unlikely]] {
+                        throw std::runtime_error("Malformed pickled PyTreeSpec.");
+                    }
+                }
+                const auto keys = (node.kind != PyTreeKind::DefaultDict
+                                       ? py::reinterpret_borrow<py::list>(node.node_data)
+                                       : TupleGetItemAs<py::list>(node.node_data, 1));
+                if (ListGetSize(keys) != node.arity ||
+                    (node.original_keys && ListGetSize(node.original_keys) != node.arity))
+                    [[unlikely]] {
+                    throw std::runtime_error("Malformed pickled PyTreeSpec.");
+                }
+            }
+            if (node.node_entries && TupleGetSize(node.node_entries) != node.arity) [[unlikely]] {
+                throw std::runtime_error("Malformed pickled PyTreeSpec.");
+            }
+            sizes.emplace_back(num_leaves, num_nodes);
+        }
+        if (sizes.size() != 1) [[unlikely]] {
+            throw std::runtime_error("Malformed pickled PyTreeSpec.");
+        }
+    }
     PYTREESPEC_SANITY_CHECK(*out);
     return out;
 }
